@@ -116,7 +116,7 @@ struct C09 : Prop {
 				}
 				else {
 					e.set("topo", "new");
-					if (r.chance(500)) { std::vector<uint8_t> na = {(uint8_t) r.range(70, 120)}; bool used = false; for (auto &y : ns) if (y.addr == na) used = true; if (!used) { e.set("as", pc::jaddr(na)); ns[k].addr = na; } }
+					if (r.chance(500)) { std::vector<uint8_t> na = {(uint8_t) r.range(70, 120)}; bool used = false; for (auto &y : ns) if (y.addr == na) used = true; for (auto &u : w.unknown) if (u.addr == na) used = true;   /* (nodes the configuration does not know occupy addresses too) */ if (!used) { e.set("as", pc::jaddr(na)); ns[k].addr = na; } }
 					ns[k].present = true;
 				}
 				ev.push(e); ph.set("bus", ev);
